@@ -210,7 +210,7 @@ let thrift_run fn argstr =
        | TErr e -> "err:" ^ terr_name e
        | TPanic -> "PANIC"
        | TOutOfFuel -> "OUTOFFUEL")
-  | ("t.msg" | "t.longcut"), _ -> "-\t-"   (* message headers and long truncated strings: compared with the specification / oracle only *)
+  | ("t.msg" | "t.longcut" | "t.void" | "t.deep" | "t.deep.deepnest"), _ -> "-\t-"   (* message headers and long truncated strings: compared with the specification / oracle only *)
   | ("t.rt.x" | "t.enc.x"), _ -> "-\t-"   (* shapes outside the universe of the model (enum on other widths than i32) *)
   | "t.strict", [ts; h; p] ->
       (* Decoder.Decode after SetStrict(true): Thrift/SpecC.v TDecode *)
@@ -383,7 +383,7 @@ let proto_run fn argstr =
        | Ok None -> "err"
        | Panic -> "PANIC"
        | OutOfFuel -> "OUTOFFUEL")
-  | ("p.topto" | "p.unexp" | "p.seq" | "p.alloc" | "p.custom" | "p.customwire" | "p.boundto"), _ -> "-\t-"   (* declared Go shapes and top-level scalars: outside the descriptor universe of the model *)
+  | ("p.topto" | "p.unexp" | "p.seq" | "p.alloc" | "p.custom" | "p.customwire" | "p.boundto" | "p.big" | "p.bigfield"), _ -> "-\t-"   (* declared Go shapes and top-level scalars: outside the descriptor universe of the model *)
   | "p.scan", [h] ->
       (match scan0 (bytes_of_hex h) with
        | ROk l -> "ok " ^ String.concat "" (List.map (fun ((f, t), v) -> Printf.sprintf "%s:%s:%s " (string_of_z f) (string_of_z t) (hex_of_bytes v)) l)
